@@ -256,8 +256,8 @@ func judgeNum(ctx *Ctx, fn c14NumFn, args []cty.Value, class string, res cty.Val
 	case "signum":
 		want := int64(x.Sign())
 		if class != "ok" {
-			// the documented function is total on numbers: 0, 1 or -1 by sign
-			fail("signum-converts-to-int-first", "signum fails on a number that is not a whole number in the int64 range (the code decodes the argument into a Go int before looking at its sign)")
+			// the documented function is total on numbers: 0, 1 or -1 by sign (regression signature of fix 3f9a6a5)
+			fail("signum-converts-to-int-first", "signum fails on a number (fractions, numbers outside int64 and infinities have a sign too)")
 			return
 		}
 		if !okNumber(res) {
@@ -288,7 +288,7 @@ func runC14Numbers(ctx *Ctx) {
 				}
 			}
 			if i == 0 && fn.name == "signum" {
-				args = []cty.Value{cty.NumberFloatVal(0.5)} // corpus: minimal witness of the signum finding
+				args = []cty.Value{cty.NumberFloatVal(0.5)} // corpus: witness of the signum defect repaired by 3f9a6a5, must pass
 			}
 			out, res, class := stdOut(fn.f, args)
 			ctx.Add("std.num", out, fn.name, wireArgs(args))
